@@ -190,7 +190,7 @@ def run(ctx) -> None:
     ctx.proofs(THEOREMS)
     ctx.allow_axioms([])
     quick = ctx.tier == "quick"
-    plan = [("append", 2), ("delete_snapshot", 2), ("create", 0)] if quick else \
+    plan = [("append", 2), ("delete_snapshot", 2), ("create", 0), ("expire", 3), ("delete_files", 2)] if quick else \
         [("create", 0), ("append", 0), ("append", 1), ("append", 3), ("delete_files", 2), ("expire", 3), ("delete_snapshot", 2), ("delete_snapshot", 3), ("collect", 2)]
     bad = []
     total = 0
